@@ -18,7 +18,8 @@ RULE = ("cases from props/C01.py gen(): vi/pe cases run ValueIteration/PolicyEva
         "solve cases cross-check VI / PolicyIteration / LinearProgramming by the Bellman residual; pi cases compare PolicyIteration "
         "with the model; seq cases reuse ONE ValueIteration / PolicyIteration / LinearProgramming object (and one PolicyEvaluation "
         "object per model over two policies) across 2-3 models of equal or different shape and all representations, each answer "
-        "judged as a fresh solve; mut cases mutate one Model / SparseModel object (setRewardFunction, setTransitionFunction, setDiscount) "
+        "judged as a fresh solve; mixed-scale dyadic vi/pe cases (a 2^28..2^32 one-off reward next to unit rewards, gamma 1/2, "
+        "tolerance 0, horizons up to 45) check vi_exact/pe_exact bit for bit at the requested horizon; mut cases mutate one Model / SparseModel object (setRewardFunction, setTransitionFunction, setDiscount) "
         "between calls of solvers built once, each call judged against the object's current tables; chain cases are 115-161 state "
         "corridors on which PolicyIteration needs > 100 improvement rounds (oracle only); via cases start VI from a ValueFunction with a short action vector; learn cases run VI on "
         "MaximumLikelihoodModel. non-trivial = horizon > 0 and more than one state (solve: also more than one action); "
